@@ -218,11 +218,15 @@ def degree(e, base, memo=None):
     return degs.pop() if len(degs) == 1 else None
 
 
+STARTS = []   # (t0, t_bound, y0) of every solver created by the last run_update_all
+
+
 def run_update_all(ctx, mineral_specs, assemblage, fractions, N=2):
     """Interpret pydrex.minerals.update_all with real update_orientations bodies, a stub solver per call and the rate
     kernel replaced by a recorder.  Returns (list of (phase name, volume_fraction recorded), result, exception)."""
     rec = []
     state = {"n": 0}
+    del STARTS[:]
 
     def derivatives_stub(I_, *a, **kw):
         rec.append((kw.get("phase"), kw.get("volume_fraction"), kw))
@@ -235,6 +239,7 @@ def run_update_all(ctx, mineral_specs, assemblage, fractions, N=2):
         state["n"] += 1
         sid = state["n"]
         s.attrs.update(fun=fun, t0=t0, y0=y0, t_bound=t_bound, kwargs=kw, status="running", y=np.array(list(y0.flat), dtype=object))
+        STARTS.append((t0, t_bound, np.array(list(y0.flat), dtype=object)))
         steps = {"k": 0}
 
         def step(I2):
